@@ -600,6 +600,10 @@ func (g *G) tryStmt(forceThrow bool) *Node {
 	}
 	if mode != 0 {
 		fb := Block(ExprStmt(Call(Id("log"), Str("finally"))))
+		if mode == 2 && g.coin(40, "fincatchparam") {
+			// the catch parameter is out of scope again in the finally block
+			fb.C = append(fb.C, ExprStmt(Call(Id("log"), Str("e in finally"), &Node{K: "un", S: "typeof", C: []*Node{Id("e")}})))
+		}
 		fb.C = append(fb.C, g.stmts(g.n(0, 2, "nfin"), false)...)
 		if g.coin(25, "finabrupt") {
 			// an abrupt completion of the finally block overrides whatever the try/catch blocks completed with
@@ -755,7 +759,16 @@ func (g *G) callExpr(d int) *Node {
 	case c == 6 && len(g.sc.ctors) > 0:
 		return &Node{K: "new", C: append([]*Node{Id(pick(g, g.sc.ctors, "nc"))}, args...)}
 	case c == 7:
-		return Call(Dot(g.objRef(), pick(g, []string{"m", "q", "p"}, "mn")), args...)
+		m := Dot(g.objRef(), pick(g, []string{"m", "q", "p"}, "mn"))
+		switch g.n(0, 5, "calleeform") {
+		case 0: // the callee is a value, not a reference: this is undefined (→ the global object)
+			return Call(N("cond", g.expr(kBool, 0), m, g.expr(kFn, 0)), args...)
+		case 1:
+			return Call(Bin(",", Num(0), m), args...)
+		case 2:
+			return Call(&Node{K: "logic", S: "||", C: []*Node{m, g.expr(kFn, 0)}}, args...)
+		}
+		return Call(m, args...)
 	case c == 8:
 		if fv := g.varsOf(kFn); len(fv) > 0 {
 			return Call(Id(pick(g, fv, "fv")), args...)
